@@ -92,7 +92,10 @@ def check_location(rep, files, main='t.case'):
         if len(actual) < len(src):
             actual = actual + ['<END OF FILE>'] * (len(src) - len(actual)) if fl else ['']
         for j, (a, b) in enumerate(zip(actual, src)):
-            same = a == b or (a.strip() == '' and b.strip() == '') or (j == len(src) - 1 and a.rstrip() == b.rstrip())
+            # the last quoted line may be cut where the parser stopped (the report quotes the source consumed up
+            # to the error, right-stripped): a non-empty prefix of the line is a true quotation of it
+            same = a == b or (a.strip() == '' and b.strip() == '') or \
+                   (j == len(src) - 1 and b.strip() != '' and a.startswith(b.rstrip()))
             if not same:
                 problems.append('%s line %d is %r, the report quotes %r' % (name, n + j, a, b))
                 break
